@@ -4,12 +4,12 @@ import PasslibVerif.Lemmas.Digits
 namespace Py
 open Digits
 
-/-- number of decimal digits of v (at least 1); fuel-bounded search, v < 10^(v+1) always -/
-def numDigitsAux : Nat → Nat → Nat → Nat
-  | 0, _, L => L
-  | fuel+1, v, L => if v < 10 ^ L then L else numDigitsAux fuel v (L + 1)
+/-- number of decimal digits of v (at least 1); structural recursion on fuel, `fuel = v` always suffices -/
+def numDigitsFuel : Nat → Nat → Nat
+  | 0, _ => 1
+  | fuel+1, v => if v < 10 then 1 else 1 + numDigitsFuel fuel (v / 10)
 
-def numDigits (v : Nat) : Nat := numDigitsAux (v + 1) v 1
+def numDigits (v : Nat) : Nat := numDigitsFuel v v
 
 /-- `"%d" % v` for v ≥ 0, as digit values most significant first -/
 def decDigits (v : Nat) : List Nat := (toDigits 10 (numDigits v) v).reverse
